@@ -5,17 +5,25 @@ HERE = os.path.dirname(os.path.abspath(__file__))
 COMMON = os.path.join(os.path.dirname(HERE), "common")
 
 ASSUMPTIONS = [
-    "directory model (E4 ghost `Dir`): the listing functions (RollingLogger::get_log_files, misc_helpers::get_files, "
-    "misc_helpers::search_files) return exactly the files of their class, each once, sorted by Ord for PathBuf; no other process "
-    "creates files of that class; archive/dump names embed the creation time so that path order is age order",
-    "POSIX: remove_file Ok removes exactly that file, Err changes nothing; rename Ok moves the existing source (length kept) onto the "
-    "target, Err changes nothing; File::create/append-open of the current log creates it empty if absent and touches nothing else",
-    "json_write_to_file adds at most one file to the directory (temp file + rename) and removes none",
-    "bytes handed to LineWriter::write_all are accounted to the file when handed over (they reach the disk at the latest when the "
-    "writer is flushed/dropped, before the next length check); a write_all of n bytes grows the file by at most n; flush by 0",
-    "a Vec<PathBuf> holds fewer than usize::MAX elements (allocation limit isize::MAX bytes)",
-    "get_current_file_full_path(Some(t)) differs from get_current_file_full_path(None)",
-    "Display of std::path::Display, std::io::Error, the crate Error and i128 does not panic",
+    "directory model (E4 ghost `Dir`, one value per class of files): the listing functions RollingLogger::get_log_files, "
+    "misc_helpers::get_files and misc_helpers::search_files (stubs) return, when Ok, exactly the files of their class, each once, sorted "
+    "by Ord for PathBuf; nothing else (other processes, other threads using the same logger) creates files of that class; archive and "
+    "dump names embed the creation time (fixed-width date, then nanoseconds) so that path order is age order",
+    "POSIX file operations (E9 stubs around std::fs::remove_file / rename / Path::metadata): remove_file Ok removes exactly that file, "
+    "Err changes nothing; rename Ok means the source existed and now carries the target name with its length, Err changes nothing; "
+    "metadata().len() is the file's length",
+    "RollingLogger::open_file (stub) creates the current log file empty if it is absent and changes nothing else; "
+    "get_current_file_full_path(Some(t)) differs from get_current_file_full_path(None) (stub)",
+    "misc_helpers::json_write_to_file (stub: temp file + rename) adds at most one file to the directory and removes none",
+    "LineWriter<File>::write_all of n bytes grows the file it was opened on by at most n bytes and no other file, flush by 0; bytes are "
+    "accounted when handed to the writer (they reach the disk at the latest when the writer is dropped at the end of write_line / "
+    "write_many, i.e. before the next length check)",
+    "a Vec<PathBuf> holds fewer than usize::MAX elements (allocation limit isize::MAX bytes); file lengths fit u64",
+    "the bounds are stated for histories in which remove_file and the listing that precedes a deletion / event write do not fail "
+    "(ghost flag io_failed); after such a failure the next successful archive_file / write_all restores the bound from any state (proved)",
+    "logging helpers (common::logger::write_error/write_information, logger_manager::write_log, get_log_header, date-time helpers) do not "
+    "touch the modelled class of files; Display of std::path::Display, std::io::Error, the crate Error and i128 does not panic",
+    "configured counts are >= 1: proved at every non-test construction / call site (E5c argument slices), not for arbitrary configuration",
 ]
 
 DIR = "Tracked(d): Tracked<&mut Dir>"
@@ -54,16 +62,16 @@ impl RollingLogger {
 DELETE_LOOP_INV = """
                 invariant_except_break
                     it.index@ == count - %(m)s,  // @C19.%(f)s.delete_loop.count_is_max_plus_removed
-                    count <= %(l)s.len(),
+                    count <= %(l)s.len(),  // @C19.%(f)s.delete_loop.stops_once_count_exceeds_len
                 invariant
                     d.wf(),
-                    %(m)s <= count <= %(l)s.len() + 1,
+                    %(m)s <= count <= %(l)s.len() + 1,  // @C19.%(f)s.delete_loop.count_range
                     d.names().subset_of(d0.names()),
                     d.count() <= d0.count(),
                     d0.io_failed ==> d.io_failed,
                     forall|p: PathBuf| #[trigger] d.files.contains_key(p) ==> d.files[p] == d0.files[p],
-                    forall|k: int| count - %(m)s <= k < %(l)s.len() ==> d.files.contains_key(#[trigger] %(l)s[k]),
-                    %(g)sforall|k: int| 0 <= k < count - %(m)s ==> !d.files.contains_key(#[trigger] %(l)s[k]),
+                    forall|k: int| count - %(m)s <= k < %(l)s.len() ==> d.files.contains_key(#[trigger] %(l)s[k]),  // @C19.%(f)s.delete_loop.newer_files_untouched
+                    %(g)sforall|k: int| 0 <= k < count - %(m)s ==> !d.files.contains_key(#[trigger] %(l)s[k]),  // @C19.%(f)s.delete_loop.oldest_prefix_removed
                 ensures
                     %(m)s >= 1 ==> count == %(l)s.len() + 1,  // @C19.%(f)s.delete_loop.removes_len_minus_max_plus_one
 """
